@@ -34,3 +34,30 @@ def classify(req, model):
 
 def oracle(req, impl, build):
     return O.std_oracle(req, impl) if req.startswith("std") else O.alnum_oracle(req, impl)
+
+
+def extra(binary, build, tier, rng):
+    """every Unicode scalar value is reachable and equally weighted: exact preimage counting of boundary scalars by interval search"""
+    from .preimage_oracle import Prober, count_values
+    from .oracles import parse_ok
+    prof = "release" if build == "release" else "debug"
+    def idx(cp):      # position of a scalar value among all scalar values
+        return cp if cp < 0xD800 else cp - 0x800
+    def mk(w):
+        return "std ty=char n=1 profile=%s words=%d" % (prof, w)
+    def parse(res):
+        f = parse_ok(res)
+        if f is None:
+            return None
+        cp = int(f[0])
+        return idx(cp) if (cp < 0xD800 or 0xE000 <= cp < 0x110000) else -1
+    r = 0x110000 - 0x800
+    p = Prober(binary, mk, parse)
+    scalars = [0, 1, 0x41, 0xD7FF, 0xE000, 0xE001, 0xFFFF, 0x10000, 0x10FFFE, 0x10FFFF]
+    msg, info = count_values(p, r, 64, [idx(c) for c in scalars], rng, "StandardUniform<char>")
+    if msg == "inconclusive":
+        yield {"kind": "oracle", "build": build, "request": mk(((2 * (r - 1) + 1) << 64) // (2 * r)), "impl": str(info)[:300], "model": "",
+               "oracle": "a Unicode scalar value is not reachable where an unbiased sampler over all %d scalar values must produce it: %s" % (r, info)}
+    elif msg:
+        yield {"kind": "oracle", "build": build, "request": mk(info[min(info)][0]), "impl": str(info)[:600], "model": "", "oracle": msg}
+    yield {"kind": "count", "what": "char-preimage-probes", "n": p.calls}
